@@ -99,6 +99,7 @@ pub enum EnvOp {
     Accrue(Id, u8, u128),
     Donate(Id, u8, u128),
     NoRedel(Id, bool),
+    NoUndel(Id, bool),
     Oracle(bool, u128),
     Swap(bool, u128),
     Legacy(Id, u64, u128),
@@ -279,6 +280,7 @@ impl Op {
                 EnvOp::Accrue(v, d, a) => format!("env accrue {} {} {}", v, d, a),
                 EnvOp::Donate(a, d, n) => format!("env donate {} {} {}", a, d, n),
                 EnvOp::NoRedel(v, b) => format!("env noredel {} {}", v, b01(*b)),
+                EnvOp::NoUndel(v, b) => format!("env noundel {} {}", v, b01(*b)),
                 EnvOp::Oracle(b, p) => format!("env oracle {} {}", b01(*b), p),
                 EnvOp::Swap(b, p) => format!("env swap {} {}", b01(*b), p),
                 EnvOp::Legacy(u, b, a) => format!("env legacy {} {} {}", u, b, a),
@@ -505,6 +507,7 @@ pub fn parse_line(line: &str) -> Option<Op> {
         ["env", "accrue", v, d, a] => Some(Op::Env(EnvOp::Accrue(pn(v)?, pn(d)?, pn(a)?))),
         ["env", "donate", a, d, n] => Some(Op::Env(EnvOp::Donate(pn(a)?, pn(d)?, pn(n)?))),
         ["env", "noredel", v, b] => Some(Op::Env(EnvOp::NoRedel(pn(v)?, pb(b)?))),
+        ["env", "noundel", v, b] => Some(Op::Env(EnvOp::NoUndel(pn(v)?, pb(b)?))),
         ["env", "oracle", b, p] => Some(Op::Env(EnvOp::Oracle(pb(b)?, pn(p)?))),
         ["env", "swap", b, p] => Some(Op::Env(EnvOp::Swap(pb(b)?, pn(p)?))),
         ["env", "legacy", u, b, a] => Some(Op::Env(EnvOp::Legacy(pn(u)?, pn(b)?, pn(a)?))),
@@ -737,6 +740,13 @@ impl Chain {
                             self.no_redelegate.insert(*v);
                         } else {
                             self.no_redelegate.remove(v);
+                        }
+                    }
+                    EnvOp::NoUndel(v, b) => {
+                        if *b {
+                            self.no_undelegate.insert(*v);
+                        } else {
+                            self.no_undelegate.remove(v);
                         }
                     }
                     EnvOp::Oracle(b, p) => {
